@@ -331,7 +331,7 @@ impl Gen {
             props.push(Prop::TopicAliasMaximum(rng.below(10) as u16));
             props.push(Prop::RetainAvailable(1));
             props.push(Prop::UserProperty("srv".into(), rand_string(rng, 6)));
-            props.push(Prop::SessionExpiry(60));
+            props.push(Prop::SessionExpiry(*rng.pick(&[0u32, 0, 60, u32::MAX])));
             props.push(Prop::WildcardSubAvailable(1));
             props.push(Prop::ReasonString("ok".into()));
         }
@@ -852,12 +852,17 @@ pub struct WithEpilogue<D> {
     pub force_fresh: bool,
     /// (with `force_fresh`) Receive Maximum of the continuation = what the old session had in flight
     pub fresh_small_window: bool,
+    /// on a resumed continuation the broker does what MQTT 5 requires of it [MQTT-4.4.0-1]: it
+    /// sends again, DUP set, every QoS 1 / QoS 2 PUBLISH the client has not acknowledged, and
+    /// the PUBREL of every exchange that waits for PUBCOMP
+    pub redeliver: bool,
+    pre: std::collections::VecDeque<Step>,
     rt: std::collections::VecDeque<Step>,
 }
 
 impl<D> WithEpilogue<D> {
     pub fn new(inner: D, max_polls: usize) -> Self {
-        WithEpilogue { inner, stage: 0, polls: 0, max_polls, from_step: None, round_trip: false, tight_limits: false, force_fresh: false, fresh_small_window: false, rt: Default::default() }
+        WithEpilogue { inner, stage: 0, polls: 0, max_polls, from_step: None, round_trip: false, tight_limits: false, force_fresh: false, fresh_small_window: false, redeliver: false, pre: Default::default(), rt: Default::default() }
     }
 }
 
@@ -933,9 +938,26 @@ impl<D: Driver> Driver for WithEpilogue<D> {
                             }
                         }
                     }
+                    if self.redeliver && v.snap.session_present && !self.force_fresh {
+                        for (pid, phase) in v.world.session.s2c.iter() {
+                            if *phase == 3 {
+                                self.pre.push_back(Step::Broker(BrokerAct::Send(SPacket::PubRel { pid: *pid, reason: None, props: None })));
+                            } else if let Some(SPacket::Publish { qos, retain, topic, props, payload, .. }) = v.world.conns.iter().rev().flat_map(|c| c.in_pkts.iter().rev()).find_map(|ip| match &ip.pkt {
+                                Some(k @ SPacket::Publish { pid: Some(q), .. }) if q == pid => Some(k.clone()),
+                                _ => None,
+                            }) {
+                                self.pre.push_back(Step::Broker(BrokerAct::Send(SPacket::Publish { dup: true, qos, retain, topic, pid: Some(*pid), props, payload })));
+                            }
+                        }
+                    }
                     return Some(Step::Connect(c));
                 }
                 3 => {
+                    if v.has_handle {
+                        if let Some(s) = self.pre.pop_front() {
+                            return Some(s);
+                        }
+                    }
                     let last = v.log.ops.last();
                     match last.map(|o| (&o.outcome, o.kind)) {
                         Some((Outcome::CallerTimeout, "poll")) => {
